@@ -26,6 +26,12 @@ ENGINES = [
         "kind_free_text": "hand-assembled Foundry artifacts are run through halmos' run_contract; TLC executes deploy/setUp/test message sequences on the reference EVM and classifies the outcomes",
     },
     {
+        "name": "testrun-model",
+        "path": "spec/TestRun.tla spec/MC_TestRun_*.cfg checks/c20.py harness/artifacts.py",
+        "serves_properties": ["C20"],
+        "kind_free_text": "TLC checks the isolation invariants on the run_contract model, refutes them on the shared-state variant, and enumerates test orders that are replayed through the real run_contract",
+    },
+    {
         "name": "frontier-model",
         "path": "spec/Frontier.tla spec/Frontier.cfg spec/Evm.tla harness/invgen.py checks/c15.py",
         "serves_properties": ["C15"],
@@ -148,6 +154,13 @@ CHECKS: dict[str, dict] = {
         "text": "Config.tla specifies precedence resolution (two equivalent forms), solver-command resolution, the grammars of the structured options with strict/tolerant recognisers, Parse/Unparse and annotation scoping; TLC checks 11 invariants (ResolveIsHighest, LayeringMonotone, RecentWinsAmongEquals, SolverCommandPrecedence, RoundTrip, ScopeLocal ...) and enumerates all stacks of <= 4 (quick) / 5 (thorough) layers over 5 sources and all strings up to length 5 / 6 over the option alphabets with their expected classification; each case is replayed through with_overrides / value_with_source / attribute reads / resolved_solver_command / argparse / TOML / with_devdoc / with_natspec / halmos._main and compared. Eight negative controls (wrong comparison in the resolver, silently defaulting parser, leaking annotation, lossy unparse ...) must be rejected in every run.",
         "note": "Inputs the documentation does not settle (blanks, empty items, signs, digit groups, nan/inf, exponents ...) are classified lenient and accept either outcome. A bare timeout number is read as milliseconds (code comment + in-repo annotations).",
         "design_ref": "5 C18, A.5",
+    },
+    "C20": {
+        "engine": "testrun-model",
+        "technique": "TestRun.tla (every test starts from a private copy of the post-setUp state; 'shared' mode as refuted negative control) enumerates all test orders with repetition; each history replayed through one run_contract call",
+        "text": "TestRun.tla states EachTestStartsFromSetup and ResultIndependentOfHistory over an abstract world (storage, transient storage, balance, created code, timestamp, frontier cache); TLC proves them for the specified 'copy' mode, refutes them for the 'shared' mode and enumerates every order with repetition of up to 2 (quick) / 3 (thorough) of 12 tests. Each history is replayed in one process through the real run_contract on a contract whose tests write, respectively assert the initial value of, each kind of state (plus two invariant tests sharing the cached frontier): the exit code of every test must equal the model's and its normalised result (verdict, path counts, counterexamples with uid suffixes stripped) must be identical in every history and across repeated runs.",
+        "note": "Sibling-path isolation is covered by the E1 soundness checks of C01/C09 on branching programs. The abstract world has one key per kind of state.",
+        "design_ref": "5 C20",
     },
 }
 
